@@ -244,6 +244,7 @@ func cmdRun(args []string) int {
 	noNative := fs.Bool("no-native", false, "skip native replays/validation")
 	maxPaths := fs.Int("max-paths", 0, "override path budget")
 	budget := fs.Duration("budget", 0, "wall-clock budget per harness")
+	estimate := fs.Int("estimate", 0, "development aid: estimate the number of paths from this many random probes (no verdict)")
 	mut := mutantFlag{}
 	fs.Var(mut, "mutant", "overlay replacement repo/rel/file.go=/abs/file.go (self-test)")
 	fs.Parse(args)
@@ -342,8 +343,16 @@ func cmdRun(args []string) int {
 			cfg.Deadline = time.Now().Add(3 * time.Hour)
 		}
 		th := time.Now()
+		cfg.Estimate = *estimate
 		ex := interp.NewExplorer(ld.prog, fn, ld.sizes, cfg, *tier)
 		ex.Run()
+		if *estimate > 0 {
+			est := ex.EstSum / float64(ex.Paths)
+			per := ex.Wall.Seconds() * float64(cfg.Workers) / float64(ex.Paths)
+			fmt.Printf("gosmt: ESTIMATE %s.%s: ~%.3g paths (from %d probes), %.1f ms/path/worker, ~%.0f s on 14 workers\n", h.Pkg, h.Fn, est, ex.Paths, per*1000, est*per/14)
+			inconclusive = true
+			continue
+		}
 		hr := &HarnessResult{Spec: h, Ex: ex}
 		want := append([]string(nil), h.Covers...)
 		if *tier == "thorough" {
